@@ -1,15 +1,17 @@
 #!/bin/bash
-# tools/seedall.sh [tier]  - regression of the machinery: every seeded change is applied to a scratch worktree of
+# tools/seedall.sh [tier] [id-regex]  - regression of the machinery: every seeded change is applied to a scratch worktree of
 # /repo HEAD (never to /repo itself) and the property's check must report a violation (exit 1).
 # Prints one line per seed and a summary; exits 0 iff every applicable seed is caught.
 set -u
 cd "$(dirname "$0")/.."
 TIER=${1:-quick}
+ONLY=${2:-.}
 REPO=${VP_RUN_REPO:-/repo}
 MISSED=0; CAUGHT=0; NA=0
 for d in seeded/*/; do
   id=$(basename "$d"); prop=${id%%-*}
   [ -f "$d/patch.diff" ] || continue
+  echo "$id" | grep -Eq "$ONLY" || continue
   if grep -q '"rejected": true' "$d/meta.json" 2>/dev/null; then echo "$id rejected-as-out-of-scope (see meta.json)"; continue; fi
   W=$(mktemp -d /tmp/sa-XXXXXX); rmdir "$W"
   git -C "$REPO" worktree add -q "$W" HEAD || { echo "$id worktree-failed"; continue; }
